@@ -1,5 +1,6 @@
 import Generated.Trans
 import Model.VecWriter
+import Props.C14
 /-
 Tie obligations for C14 (and the writer clauses of C01 / C02 / C09): `Generated/Trans.lean` holds `proto/writer.go`
 translated statement by statement from the working tree (extract/golean.go, extract/trans_writer.go).  Each translated
@@ -41,3 +42,41 @@ theorem tie_C14_flush (w : W) (mem : Mem) (sink : Sink) : Generated.Trans.Writer
   unfold Generated.Trans.Writer.flush flush
   simp only [tie_C14_cutBuffer, tie_C14_reset]
 
+
+
+/-! ### the property theorem about the TRANSLATED writer
+
+The operation-sequence machine of `Model/VecWriter.lean` with every `Writer` method replaced by its translation from
+proto/writer.go is the same machine; so the refinement theorem `C14_refines_spec` is a theorem about the translated code. -/
+
+/-- one operation, executed with the translated methods -/
+def transStep (grow : Nat → Nat) (s : St) : Op → St
+  | .app bs => { s with w := Generated.Trans.Writer.chainBuffer s.w (fun w => append grow w bs) }
+  | .chain slot => { s with w := Generated.Trans.Writer.chainWrite s.w (.ext slot) }
+  | .mutate slot bs => { s with mem := fun i => if i = slot then bs else s.mem i }
+  | .flush sink =>
+    let r := Generated.Trans.Writer.flush s.w s.mem sink
+    { s with w := r.1, outs := s.outs ++ [(r.2.1, r.2.2)] }
+
+theorem tie_C14_step (grow : Nat → Nat) (s : St) (op : Op) : transStep grow s op = step grow s op := by
+  cases op with
+  | app bs => simp only [transStep, step, tie_C14_chainBuffer]
+  | chain slot => simp only [transStep, step, tie_C14_chainWrite]
+  | mutate slot bs => rfl
+  | flush sink => simp only [transStep, step, tie_C14_flush]
+
+theorem tie_C14_run (grow : Nat → Nat) (ops : List Op) : ∀ s : St, ops.foldl (transStep grow) s = run grow s ops := by
+  induction ops with
+  | nil => intro s; rfl
+  | cons op ops ih =>
+    intro s
+    simp only [List.foldl_cons, run, tie_C14_step]
+    exact ih (step grow s op)
+
+/-- **C14 for the code as translated**: whatever the growth policy, the initial capacity, the caller's memory and the
+operation sequence, the sink receives flush by flush exactly what the pending-list specification says -/
+theorem tie_C14_translated_writer_refines_spec (grow : Nat → Nat) (cap : Nat) (mem0 : Mem) (ops : List Op) :
+    (ops.foldl (transStep grow) { w := W.init cap, mem := mem0, outs := [] }).outs =
+      (Spec.run { pending := [], mem := mem0, outs := [] } ops).outs := by
+  rw [tie_C14_run]
+  exact C14_refines_spec grow cap mem0 ops
